@@ -6805,13 +6805,14 @@ static int32_t ocspParseBasicResponse(psPool_t *pool, uint32_t len,
         return PS_UNSUPPORTED_FAIL;
     }
 
-    if (*p++ != ASN_BIT_STRING)
+    if (p >= end || *p++ != ASN_BIT_STRING)
     {
         psTraceCrypto("Error parsing signature in ResponseData\n");
         return PS_PARSE_FAIL;
     }
     if (getAsnLength(&p, (int32) (end - p), &glen) < 0 ||
-        (uint32) (end - p) < glen)
+        (uint32) (end - p) < glen ||
+        glen < 1)
     {
         psTraceCrypto("Error parsing signature in ResponseData\n");
         return PS_PARSE_FAIL;
@@ -6937,7 +6938,7 @@ int32_t psOcspParseResponse(psPool_t *pool, int32_t len, unsigned char **cp,
     }
 
     /* responseBytes       [0] EXPLICIT ResponseBytes OPTIONAL, */
-    if (*p == (ASN_CONSTRUCTED | ASN_CONTEXT_SPECIFIC | 0))
+    if (p < end && *p == (ASN_CONSTRUCTED | ASN_CONTEXT_SPECIFIC | 0))
     {
         p++;
         if (getAsnLength32(&p, (uint32_t) (end - p), &blen, 0) < 0 ||
@@ -6963,7 +6964,7 @@ int32_t psOcspParseResponse(psPool_t *pool, int32_t len, unsigned char **cp,
             psTraceCrypto("responseType parse error in psOcspParseResponse\n");
             return PS_PARSE_FAIL;
         }
-        if ((*p++ != ASN_OCTET_STRING) ||
+        if (p >= end || (*p++ != ASN_OCTET_STRING) ||
             getAsnLength32(&p, (int32) (end - p), &blen, 0) < 0 ||
             (uint32) (end - p) < blen)
         {
